@@ -25,10 +25,15 @@ ops
   notwod <nDims>                                      → err not2d | err not2d   (igo | es on an image that is not 2-D)
   daisyshape <H> <W> <radius> <step> <rings> <histograms> <orientations>   → ok <channels> <h> <w>
   noops <C> <N> data…                                 → ok <input buffer unchanged> <result in a new buffer> values…
+  sumch <C> <H> <W> data… <hasChannels> [<k> idx…]    → ok values…                      (sum_channels)
+  daisyplumb <step> <radius> <rings> <hist> <ori> <norm: none|l1|l2|daisy|off|other> <hasSigmas> [<k> s…] <hasRadii> [<k> r…]
+      → ok <step> <radius> <rings> <hist> <ori> <norm> S <k> sigmas… R <k> ring radii… | err value|index
+        (what `menpo.feature.daisy` hands to `_daisy`, or the exception raised before the call)
 -/
 import MenpoModel.Core.Codec
 import MenpoModel.Core.C18Feature
 import MenpoModel.Core.C18Kernels
+import MenpoModel.Core.C18Src
 
 namespace MenpoModel.Drive.C18
 open MenpoModel.Codec MenpoModel.C18
@@ -308,6 +313,47 @@ def step (toks : List String) : String :=
       | .ok (s', j) =>
         "ok " ++ (if s'.read 0 == x then "1 " else "0 ") ++ (if decide (1 ≤ j) then "1 " else "0 ")
           ++ fmtRats (s'.read j).flatten
+    | none => "bad-op"
+  | "sumch" :: r =>
+    match runP (do
+        let x ← pPx
+        let has ← pBool
+        let idx ← if has then pList pNat else pure []
+        pure (x, has, idx)) r with
+    | some ((x, _, _), has, idx) =>
+      match sumChannels2 (if has then some idx else none) x with
+      | .error e => fErrK e
+      | .ok g => "ok " ++ fmtRats (g.map List.flatten).flatten
+    | none => "bad-op"
+  | "daisyplumb" :: r =>
+    match runP (do
+        let st ← pNat; let radius ← pRat; let rings ← pInt; let hist ← pNat; let ori ← pNat
+        let nz ← tok
+        let hs ← pBool
+        let sg ← if hs then pList pRat else pure []
+        let hr ← pBool
+        let rr ← if hr then pList pRat else pure []
+        pure (st, radius, rings, hist, ori, nz, hs, sg, hr, rr)) r with
+    | some (st, radius, rings, hist, ori, nz, hs, sg, hr, rr) =>
+      let norm : Option (Option DaisyNorm) := match nz with
+        | "none" => some none | "l1" => some (some .l1) | "l2" => some (some .l2) | "daisy" => some (some .daisy)
+        | "off" => some (some .off) | "other" => some (some .other) | _ => none
+      match norm with
+      | none => "bad-op"
+      | some nrm =>
+        match daisyPlumb st radius rings hist ori nrm (if hs then some sg else none) (if hr then some rr else none) with
+        | .error (.feature 13) => "err value"
+        | .error (.feature 14) => "err index"
+        | .error e => fErrK e
+        | .ok c =>
+          let nm := match c.normalization with
+            | some .l1 => "l1" | some .l2 => "l2" | some .daisy => "daisy" | some .off => "off" | some .other => "other"
+            | none => "none"
+          let sl := c.sigmas.getD []
+          let rl := c.ringRadii.getD []
+          "ok " ++ toString c.step ++ " " ++ fmtRat c.radius ++ " " ++ toString c.rings ++ " " ++ toString c.histograms
+            ++ " " ++ toString c.orientations ++ " " ++ nm ++ " S " ++ toString sl.length ++ " " ++ fmtRats sl
+            ++ " R " ++ toString rl.length ++ " " ++ fmtRats rl
     | none => "bad-op"
   | _ => "bad-op"
 
